@@ -92,3 +92,11 @@ PROPS["C06"]["assumptions"] = PROPS["C06"]["assumptions"] + ["await: 'Await has 
 PROPS["C20"] = {"families": ["engine"], "assumptions": ENGINE_ASSUME + ["robfig/cron is not modelled: the model's cron_next covers the periodic specifications of the harness family (every minute, */15, 0,30, @hourly, @daily) as (period, phase); every deadline the real scheduler computes with cron.ParseStandard(spec).Next is compared with it (TW tokens); @monthly and other non-periodic specifications are outside the model"],
                 "explanation": "five cron specifications x all clock-advance sequences up to a depth (1 s, tick-1 s, tick, 3 ticks, 20 s) x filter answers; random histories with older runs, pauses/cancels, lease losses, crashes and adapter faults; invalid specification"}
 PROPS["C20"]["families"] = ["engine", "schedrej"]
+
+PROPS["C18"] = {"families": ["sqlstore", "sqltimeout"],
+  "assumptions": ADAPTER_ASSUME + ["MySQL is replaced by sqlmini (harness/sqlmini.go): an in-process engine for exactly the statement shapes the two adapters emit, with staged transactions, a strictly increasing statement clock for now(), and a fault at any statement; MySQL's own semantics (isolation, datetime(3) ties in ORDER BY created_at, collation, unordered SELECT without ORDER BY) are not modelled (partial, as the property itself allows: 'a reference SQL engine')",
+                                   "CreatedAt is stamped by the database (created_at=now()) and is not compared; ListValid is compared away from the exact expiry instant (SQL uses expire_at < now, the property accepts either answer there); sqltimeout.List (completed=false) is not part of the property and not compared; the event-encoding failure position of Store (MakeOutboxEventData error) cannot be injected and is covered by the model only"],
+  "explanation": "sqlstore / sqltimeout on sqlmini vs the reference store / timer list: failure at each statement of Store (begin, select, insert|update, outbox insert, commit) for new and existing runs, random sequences, List filter/order/limit/offset grid, statement log (one transaction on the writer, placeholders = arguments)"}
+
+PROPS["C11"]["families"] = ["engine", "memroles"]
+PROPS["C11"]["assumptions"] = PROPS["C11"]["assumptions"] + ["memrolescheduler: goroutine / mutex semantics are modelled as a transition system (coq/model/MemRoles.v), not Go's memory model; the harness observes overlap with counters under real goroutine schedules (an acceptor: the winner among waiters is not determined)"]
